@@ -98,7 +98,8 @@ PROPS['C16'] = {
     'runs': [{'name': fl, 'flavour': fl, 'driver': 'drv_c16', 'shards': 3} for fl in _C16_FL],
     'require': {'free.blocks_inspected': 500, 'scan.bytes': 100000, 'scan.needles': 100000,
                 # positive control: with a memzero that only logs, residue MUST be found, otherwise the scanner is blind
-                'control.hits.polyseed_encode': 6, 'control.hits.polyseed_decode': 6, 'control.hits.polyseed_decode_explicit': 6, 'control.hits.polyseed_crypt': 6,
+                # (the total, not one minimum per function: a correct refactoring may do away with a temporary in one function, and that must not make the check inconclusive)
+                'control.hits.total': 40,
                 'control.free_notzero': 6,
                 'calls.polyseed_decode.OK': 60, 'calls.polyseed_decode.OVERLONG': 30, 'calls.polyseed_decode_explicit.OVERLONG': 30, 'calls.polyseed_decode.MULT_LANG': 6, 'calls.polyseed_decode.UNSUPPORTED': 60, 'calls.polyseed_decode.MEMORY': 60,
                 'calls.polyseed_decode_explicit.LANG': 60, 'calls.polyseed_load.UNSUPPORTED': 6, 'calls.polyseed_create.OK': 6, 'calls.polyseed_crypt.OK': 60,
